@@ -46,8 +46,8 @@ PROPS["C03"] = {
     "assumptions": [],
 }
 PROPS["C04"] = {
-    "rules": [r_transform.rule_CANCEL, r_sync.rule_T1_sync, r_sync.rule_S3, r_sync.rule_S1, r_sync.rule_S9],
-    "explanation": "TR/CANCEL: identical operations cancel to (None, None).",
+    "rules": [r_transform.rule_CANCEL, r_sync.rule_T1_sync, r_sync.rule_S3, r_sync.rule_S1, r_sync.rule_S9, r_taskdb.rule_R6, r_servers.rule_K7],
+    "explanation": "R6: the replica-level sync rebuilds the working set after every successful TaskDb sync, also one that exchanged nothing (the repeat of a sync interrupted between its two transactions); K7: the object-store server keeps the uploaded version when the outcome of the swap is unknown (`effect then lost reply` on the one request that makes a version the head), otherwise the repeated sync is out of sync for good; TR/CANCEL: identical operations cancel to (None, None).",
     "not_decided": "per-crash-point behaviour",
     "assumptions": [],
 }
@@ -70,13 +70,13 @@ PROPS["C05"] = {
     "assumptions": [],
 }
 PROPS["C07"] = {
-    "rules": [r_taskdb.rule_U1, r_taskdb.rule_U2, r_taskdb.rule_U3, lambda F, R: r_txn.rule_T1(F, R, only=("commit_reversed_operations",)), r_taskdb.rule_R4, r_task.rule_M1, r_task.rule_M2],
-    "explanation": "U1 reversal table of reverse_ops (exhaustive over Operation variants, field-level: old value restored); U2 commit_reversed_operations (early returns write nothing, suffix-equality tail match, reversed iteration, every reversed op applied, remove_operation per undone op); U3 only unsynchronised operations are offered and removable; T1 single transaction; rebuild without renumbering afterwards.",
+    "rules": [r_taskdb.rule_U1, r_taskdb.rule_U2, r_taskdb.rule_U3, lambda F, R: r_txn.rule_T1(F, R, only=("commit_reversed_operations",)), r_taskdb.rule_R4, r_task.rule_M1, r_task.rule_M2, r_storage.rule_Q4],
+    "explanation": "Q4: the storage-level withdrawal that undo relies on (remove_operation) compares decoded operations in both storages - a comparison of stored text fails for a Delete whose old_task map serialises in another order, and undo of a deletion then errors on SQLite; U1 reversal table of reverse_ops (exhaustive over Operation variants, field-level: old value restored); U2 commit_reversed_operations (early returns write nothing, suffix-equality tail match, reversed iteration, every reversed op applied, remove_operation per undone op); U3 only unsynchronised operations are offered and removable; T1 single transaction; rebuild without renumbering afterwards.",
     "not_decided": "exact state restoration for all histories (needs recorded old values to be right, see C19); interaction with later commits",
     "assumptions": [],
 }
 PROPS["C15"] = {
-    "rules": [r_taskdb.rule_R1, r_taskdb.rule_R2, r_taskdb.rule_R5, r_taskdb.rule_R3, r_taskdb.rule_R4, lambda F, R: r_txn.rule_T1(F, R, only=("rebuild_working_set",))],
+    "rules": [r_taskdb.rule_R1, r_taskdb.rule_R2, r_taskdb.rule_R5, r_taskdb.rule_R3, r_taskdb.rule_R4, lambda F, R: r_txn.rule_T1(F, R, only=("rebuild_working_set",)), r_taskdb.rule_R6],
     "explanation": "R1 keep/blank/drop table of one scan iteration of the working-set rebuild (all 7 rows); R2 slot 0 blank, scan from 1, newcomers = all tasks not seen and wanted, appended after the scan; R3 predicate truth tables (status in {pending, recurring}; commit trigger); R4 constant-false renumber after sync and undo; T1.",
     "not_decided": "the resulting numbering as a function of arbitrary prior working sets over sequences of rebuilds; that the write-back makes storage equal to the computed vector",
     "assumptions": [],
@@ -88,8 +88,8 @@ PROPS["C17"] = {
     "assumptions": ["SQLite's transaction isolation"],
 }
 PROPS["C06"] = {
-    "rules": [lambda F, R: r_txn.rule_T1(F, R), r_sync.rule_T1_sync, r_storage.rule_D, r_storage.rule_Q1],
-    "explanation": "T1 for all four mutating actions; D2 who-may-commit (actor commits only in its Commit arm, via Q1's actor table; rusqlite commit only in the transaction's commit; no set_drop_behavior/unchecked_transaction); D3 one rusqlite transaction per StorageTxn and every statement through it; D4 the proxy returns the actor's commit reply; D5 crash-safe journal mode.",
+    "rules": [lambda F, R: r_txn.rule_T1(F, R), r_sync.rule_T1_sync, r_storage.rule_D, r_storage.rule_Q1, r_storage.rule_D6],
+    "explanation": "D6: the storage handle keeps no replica data outside the SQLite transaction - a value cached in the handle survives a rollback and is then read by the next transaction as if it had been committed; T1 for all four mutating actions; D2 who-may-commit (actor commits only in its Commit arm, via Q1's actor table; rusqlite commit only in the transaction's commit; no set_drop_behavior/unchecked_transaction); D3 one rusqlite transaction per StorageTxn and every statement through it; D4 the proxy returns the actor's commit reply; D5 crash-safe journal mode.",
     "not_decided": "what SQLite does at a process kill; durability of an acknowledged commit (SQLite + OS); the per-storage-call crash sweep",
     "assumptions": ["rusqlite's default drop behaviour is rollback", "SQLite's atomic commit in WAL/rollback-journal modes"],
 }
